@@ -469,4 +469,9 @@ def run(tier):
     rep.assumptions += ["the secant/midpoint values are inside the bracket in exact arithmetic only (rounding and NaN produced by the "
                         "secant formula itself are not decided)", "convergence of the iteration is not decided",
                         "observation (not a finding of the claimed clauses): a Newton step is taken when isfinite(fv) || dfv == 0"]
+    # R6 exactness of the sign test on IEEE classes (abstract interpretation of the -O2 IR, rules/ieeeclass.py)
+    import ieeeclass
+    ieeeclass.same_sign_rule(rep)
+    if tier == "thorough":
+        ieeeclass.same_sign_rule(rep, "-O1")
     return rep
